@@ -65,6 +65,8 @@ theorem C04_reader_point : type_of% (@C03.C03_C04_reader_point K V _ p) := @C03.
 theorem C04_fastpath_point : type_of% (@C03.C03_C04_fastpath_point K V _ p) := @C03.C03_C04_fastpath_point K V _ p
 theorem C04_content_changes_only_at_commit_or_clear : type_of% (@C03.C03_content_changes_only_at_commit_or_clear K V _ p) := @C03.C03_content_changes_only_at_commit_or_clear K V _ p
 theorem C04_clear_empties : type_of% (@C03.C03_clear_empties K V _ p) := @C03.C03_clear_empties K V _ p
+theorem C04_clear_takes_effect : type_of% (@C03.C03_C04_clear_takes_effect K V _ p) := @C03.C03_C04_clear_takes_effect K V _ p
+theorem C04_read_any_instant : type_of% (@C03.C03_C04_read_any_instant K V _ p) := @C03.C03_C04_read_any_instant K V _ p
 
 end lin
 
